@@ -33,7 +33,7 @@ pub fn build_source(case: &Value) -> (Vec<u8>, String) {
     if used.iter().any(|u| u == "font") { content += "BT /R1 12 Tf (hi) Tj ET "; }
     // two forms: the first refers to object 6 through an entry the typed model does not know (copied as a plain reference), the
     // second through a typed entry of its resources (copied as a typed value) and lists itself among its own XObjects
-    if used.iter().any(|u| u == "xobject") { content += "q /R1 Do Q q /R2 Do Q "; }
+    if used.iter().any(|u| u == "xobject") { content += "q /R1 Do Q q /R2 Do Q q /R3 Do Q "; }
     if used.iter().any(|u| u == "colorspace") { content += "/CS1 cs 0.5 sc "; }
     content += "1 2 m 3 4 l S";
     let o = d.stream(4, 0, "", content.as_bytes(), None, false);
@@ -42,7 +42,7 @@ pub fn build_source(case: &Value) -> (Vec<u8>, String) {
     if res("gs") != 0 { rs += "/ExtGState << /GS1 6 0 R /GSunused << /LW 9 >> >> "; }
     // the font and the XObject deliberately share one name: the categories are separate name spaces
     if res("font") != 0 { rs += &format!("/Font << /R1 {} 0 R >> ", 10 + res("font")); }
-    if res("xobject") != 0 { rs += "/XObject << /R1 8 0 R /R2 9 0 R /Xunused 8 0 R >> "; }
+    if res("xobject") != 0 { rs += "/XObject << /R1 8 0 R /R2 9 0 R /R3 9003 0 R /Xunused 8 0 R >> "; }
     if res("colorspace") != 0 { rs += "/ColorSpace << /CS1 [/ICCBased 7 0 R] >> "; }
     let o = d.obj(5, 0, format!("<< {} >>", rs).as_bytes());
     e.push((5, XEntry::InUse { off: o, gen: 0 }));
@@ -70,6 +70,9 @@ pub fn build_source(case: &Value) -> (Vec<u8>, String) {
     e.push((9, XEntry::InUse { off: o, gen: 0 }));
     let o = d.obj(9001, 0, b"<< /ExtGState << /GB << /LW 3.5 >> >> /Properties << /MC0 6 0 R >> /XObject << /Self 9 0 R /Other 9002 0 R >> >>");
     e.push((9001, XEntry::InUse { off: o, gen: 0 }));
+    // a third form drawn by the page, with a resources dictionary of its own written inline (like the first form's)
+    let o = d.stream(9003, 0, "/Type /XObject /Subtype /Form /BBox [0 0 9 9] /Resources << /ExtGState << /GC << /LW 4.5 >> >> >>", b"0 0 3 3 re f", None, false);
+    e.push((9003, XEntry::InUse { off: o, gen: 0 }));
     let o = d.stream(9002, 0, "/Type /XObject /Subtype /Form /BBox [0 0 9 9] /Resources 9001 0 R", b"0 0 2 2 re f", None, false);
     e.push((9002, XEntry::InUse { off: o, gen: 0 }));
     for k in 1..=n {
@@ -78,7 +81,7 @@ pub fn build_source(case: &Value) -> (Vec<u8>, String) {
         let o = d.obj(10 + k, 0, format!("<< /Type /Font /Subtype /Type1 /BaseFont /Helvetica /Marker {} /Refs [{}] >>", k, refs.join(" ")).as_bytes());
         e.push((10 + k, XEntry::InUse { off: o, gen: 0 }));
     }
-    d.xref_table(&e, 9003, "/Root 1 0 R", None, Split::Min);
+    d.xref_table(&e, 9004, "/Root 1 0 R", None, Split::Min);
     (d.buf, content)
 }
 
@@ -201,7 +204,7 @@ pub fn run(cases_path: &str, report_path: &str, _opts: &[String]) {
                                 ("gs", Some(rs)) => rs.graphics_states.get("GS1").map(|g| g.line_width == Some(2.5)).unwrap_or(false),
                                 ("xobject", Some(rs)) => rs.xobjects.get("R1").map(|x| r.resolve(x.get_inner()).ok().and_then(|p| match p { Primitive::Stream(st) => Some(pdf::object::Stream::<()>::from_stream(st.clone(), &r).and_then(|s| s.data(&r)).map(|d| d.starts_with(b"0 0 9 9 re f") && d[12..].iter().all(|&b| b == 0)).unwrap_or(false)), _ => None }).unwrap_or(false)).unwrap_or(false)
                                     // each form keeps the resources it had in the source (its own inline dictionary)
-                                    && [("R1", "GA", 1.5f32), ("R2", "GB", 3.5)].iter().all(|(x, g, lw)| rs.xobjects.get(*x).and_then(|x| r.get(*x).ok()).map(|xo| match &*xo {
+                                    && [("R1", "GA", 1.5f32), ("R2", "GB", 3.5), ("R3", "GC", 4.5)].iter().all(|(x, g, lw)| rs.xobjects.get(*x).and_then(|x| r.get(*x).ok()).map(|xo| match &*xo {
                                         pdf::object::XObject::Form(f) => f.dict().resources.as_ref().map(|res| res.graphics_states.len() == 1 && res.graphics_states.get(*g).map(|p| p.line_width == Some(*lw)).unwrap_or(false)).unwrap_or(false),
                                         _ => false }).unwrap_or(false)),
                                 ("font", Some(rs)) => rs.fonts.get("R1").map(|l| l.load(&r).map(|ft| ft._other.get("Marker") == Some(&Primitive::Integer(case["resobj"]["font"].as_i64().unwrap() as i32))).unwrap_or(false)).unwrap_or(false),
